@@ -231,9 +231,14 @@ def main(argv=None):
         else:
             malfunctions.append(f"{c.name}: engine error: {rm.get('message', '')[:400]}")
 
+    extra_discharged = 0
     for z in zconds:
         rm = results[(z.name, 'main')]
         obligations += rm.get('obligations', 1)
+        if rm['status'] == 'CONFIRMED':
+            extra_discharged += rm.get('obligations', 1) - 1
+        else:
+            extra_discharged += rm.get('discharged', 0)
         queries += rm.get('queries', 0)
         solver_cpu += rm.get('solver_s', 0)
         total_paths += rm.get('queries', 0)
@@ -279,7 +284,7 @@ def main(argv=None):
         print(f"VIOLATION property={prop} replay={rpath}")
         print(f"  condition={cname} code={code} {what}")
 
-    discharged = len(confirmed)
+    discharged = len(confirmed) + extra_discharged
     functions = sorted({f for c in conds for f in c.encodes} | {f for z in zconds for f in z.encodes})
     stubs = sorted({s for c in conds for s in c.stubs})
     nontrivial = len([s for s in samples if s.get('paths', s.get('queries', 0)) >= 2])
